@@ -126,6 +126,8 @@ pub fn run(ctx: &Ctx) -> Report {
         p2(classic_ops(), ctx.pick(vec![vec![1], vec![0x80]], vec![vec![], vec![1], vec![0x80]])),
         p4(ctx.pick(12, 60), false),
         p5_full(),
+        p_vectors(ctx.pick(2, 8)),
+        p_paths(40),
     ];
     let flagsets: Vec<ClvmFlags> = vec![ClvmFlags::empty(), ClvmFlags::NEW_COST_MODEL, MEMPOOL_MODE, MEMPOOL_MODE | ClvmFlags::NEW_COST_MODEL, ClvmFlags::ENABLE_GC | ClvmFlags::MALACHITE];
     let seed = ctx.seed;
